@@ -419,7 +419,7 @@ def int_values(rng, tier):
     big = [16383, 16384, 16385] if tier == "thorough" else [16383, 16384]
     for nbytes in big:
         vals.append(rng.getrandbits(8 * nbytes) | (1 << (8 * nbytes - 1)))
-    n = 40 if tier == "quick" else 600
+    n = 40 if tier == "quick" else max(40, int(600 * _SCALE))
     for _ in range(n):
         vals.append(nat_pattern(rng, rng.choice([1, 1, 2, 2, 3, 3, 4, 5, 8, 17, 33]), rng.choice(PATTERNS)))
         vals.append(rng.getrandbits(rng.randrange(1, 300)))
@@ -437,7 +437,7 @@ def gen_serde_values(rng, tier):
             yield Case("cfgall", ["sd.i", m, hx(-v)])
     # rationals: reduced and non-reduced inputs, unit denominators, powers of two
     small = [v for v in vals if v.bit_length() <= 1100]
-    n = 120 if tier == "quick" else 2500
+    n = 120 if tier == "quick" else max(120, int(2500 * _SCALE))
     for _ in range(n):
         a = signed(rng, rng.choice(small)); b = rng.choice(small) or 1
         r = rng.random()
@@ -454,7 +454,7 @@ def gen_serde_values(rng, tier):
             yield Case("cfgall", ["sd.q", m, hx(a), hx(b)])
             yield Case("cfgall", ["sd.x", m, hx(a), hx(b)])
     # floats
-    n = 60 if tier == "quick" else 800
+    n = 60 if tier == "quick" else max(60, int(800 * _SCALE))
     for B in FLOAT_BASES:
         sigs = [0, 1, -1, B, -B, B * B, B ** 5 * 3, B ** 3 + 1, 2 ** 64, -(2 ** 64), 2 ** 128 - 1, B ** 40, -(B ** 40) * 7]
         for _ in range(n):
@@ -577,7 +577,7 @@ def gen_decode_pc(rng, tier):
         else:
             for k in sorted({0, 1, 2, len(s) // 2, len(s) - 1}):
                 yield emit(t, s[:k])
-    n = 300 if tier == "quick" else 6000
+    n = 300 if tier == "quick" else max(300, int(6000 * _SCALE))
     for _ in range(n):
         t, s = rng.choice(valid)
         yield emit(t, mutate(rng, s))
@@ -658,7 +658,7 @@ def gen_decode_json(rng, tier):
                 for s in json_variants(rng, text):
                     yield emit((k, B), s)
     # random texts over the alphabets of the grammars
-    n = 300 if tier == "quick" else 8000
+    n = 300 if tier == "quick" else max(300, int(8000 * _SCALE))
     alpha_i = "0123456789" * 3 + "_+-xbo af"
     alpha_q = alpha_i + "//"
     alpha_f = "0123456789" * 3 + "..eE@pPbBhHoO+-_x a"
@@ -686,6 +686,8 @@ WRAP = [("c01", 700, 8000), ("c02", 700, 8000), ("c09", 400, 5000), ("c05", 300,
         ("c06", 400, 5000), ("c12", 400, 5000), ("c13", 400, 5000), ("c03", 300, 4000), ("c10", 300, 3000), ("c04", 400, 4000),
         ("c14", 300, 3000)]
 GROUPS = ("int", "div", "bits", "text", "conv", "nt", "float", "ratio", "cross")
+
+_SCALE = 1.0
 
 class _GenTimeout(Exception):
     pass
@@ -812,14 +814,15 @@ def wrap_other(rng, tier, confs):
     byte-identical and equal to the model at both word sizes); the log2_bounds family per configuration"""
     for name, kq, kt in WRAP:
         k = kq if tier == "quick" else kt
+        k = max(150, int(k * _SCALE))
         try:
             M = importlib.import_module("vlib.props." + name)
             group = M.GROUP
             if group not in GROUPS:
                 continue
             sub = random.Random(rng.getrandbits(64))
-            cases = _collect(lambda: M.generate(sub, "quick" if tier == "quick" else "thorough"),
-                             60 if tier == "quick" else 600)
+            cases = _collect(lambda: M.generate(sub, "quick" if (tier == "quick" or _SCALE < 0.5) else "thorough"),
+                             (60 if _SCALE >= 0.5 else 25) if tier == "quick" else 600)
         except Exception as e:                       # a broken neighbour must not disable C19
             core.log("C19: generator of %s unavailable (%s)" % (name, e))
             continue
@@ -927,7 +930,7 @@ def words32(rng, tier):
     sz = [1, 2, 3, 4, 5, 6, 23, 24, 25, 31, 32, 33, 47, 48, 49, 63, 64, 65, 95, 96, 97, 191, 192, 193, 383, 384, 385]
     if tier == "thorough":
         sz += [767, 768, 769, 1025, 2049]
-    n = 400 if tier == "quick" else 6000
+    n = 400 if tier == "quick" else max(400, int(6000 * _SCALE))
     for _ in range(n):
         na = rng.choice(sz); nb = rng.choice(sz)
         a = nat_pattern(rng, na, rng.choice(PATTERNS), 32)
@@ -955,7 +958,7 @@ def gen_log2(rng, tier, confs):
         if k >= 16:
             vals += [(0x8000 << (k - 15)) + 1, (0x8000 << (k - 15)) + (1 << (k - 15)) - 1, (0x8001 << (k - 15)), (0xffff << (k - 15)) | ((1 << (k - 15)) - 1),
                      (0xff7f << (k - 15)) | 1]
-    n = 150 if tier == "quick" else 3000
+    n = 150 if tier == "quick" else max(150, int(3000 * _SCALE))
     for _ in range(n):
         vals.append(rng.getrandbits(rng.randrange(1, 129)))
     vals = sorted(set(v for v in vals if v < 2 ** 128))
@@ -967,6 +970,8 @@ def gen_log2(rng, tier, confs):
     big += [2 ** 64, 2 ** 64 + 1, 2 ** 128 - 1, 2 ** 128, 2 ** 128 + 1, 2 ** 192 - 1, 2 ** 4096, 2 ** 4096 + 1, 2 ** 30000 - 1]
     if tier == "quick":
         sample = rng.sample(vals, min(len(vals), 260))
+    elif _SCALE < 1.0:
+        sample = rng.sample(vals, min(len(vals), max(260, int(len(vals) * _SCALE))))
     else:
         sample = vals
     for conf in confs:
@@ -981,15 +986,42 @@ def gen_log2(rng, tier, confs):
             yield Case("cfg", [conf, "lg.i", hx(-v)])
 
 
+def _load_scale():
+    """the volume of the *random* parts of the run (the replay quotas of the other properties' generators, random serde values
+    and damaged streams) is scaled down when the machine is overloaded (1-minute load average above two runnable processes
+    per core), so that the check stays within its time budget when ~20 builds and checks share the machine; the directed
+    classes, the corpus and the malformed-stream tables are never thinned.  VERIF_C19_SCALE overrides."""
+    try:
+        if os.environ.get("VERIF_C19_SCALE"):
+            return max(0.02, min(1.0, float(os.environ["VERIF_C19_SCALE"])))
+        per_core = os.getloadavg()[0] / max(1, os.cpu_count() or 1)
+    except Exception:
+        return 1.0
+    if per_core <= 2.0:
+        return 1.0
+    return max(0.03, (2.0 / per_core) ** 2)      # the slowdown is itself ~ per_core: keep the wall time from growing with the load
+
+
 def generate(rng, tier):
+    global _SCALE
+    _SCALE = _load_scale()
+    if _SCALE < 1.0:
+        core.log("C19: machine overloaded (load average %.0f on %d cores): random volume scaled to %.0f%%"
+                 % (os.getloadavg()[0], os.cpu_count() or 1, 100 * _SCALE))
     confs = list(cfgbuild.QUICK) if tier == "quick" else list(cfgbuild.ALL)
+    eff = tier
+    if tier == "thorough" and _SCALE < 0.15:
+        # heavily overloaded machine: the thorough tier keeps what defines it (all eight build configurations, leanchecker)
+        # and runs the quick tier's case volume over them
+        eff = "quick"
+        core.log("C19: thorough tier on an overloaded machine: quick-tier case volume over all %d configurations" % len(confs))
     for c in confs + [cfgbuild.UNSUPPORTED]:
         yield Case("cfg", [c, "cfg.self"], nontrivial=False)
-    yield from gen_log2(rng, tier, confs)
-    yield from gen_serde_values(rng, tier)
-    yield from gen_decode_pc(rng, tier)
-    yield from gen_decode_json(rng, tier)
-    yield from words32(rng, tier)
-    yield from gen_conv_directed(rng, tier)
-    yield from gen_text_directed(rng, tier)
-    yield from wrap_other(rng, tier, confs)
+    yield from gen_log2(rng, eff, confs)
+    yield from gen_serde_values(rng, eff)
+    yield from gen_decode_pc(rng, eff)
+    yield from gen_decode_json(rng, eff)
+    yield from words32(rng, eff)
+    yield from gen_conv_directed(rng, eff)
+    yield from gen_text_directed(rng, eff)
+    yield from wrap_other(rng, eff, confs)
